@@ -23,12 +23,27 @@ CLAIMED = {
         "by add_expr/add_workflow) are replayed on the model and the depends sets compared; oracle recomputes the closure of the real from-triples.",
         technique="Lean 4 proof (invariant by induction over the operation sequence; path-splitting lemma) + model/implementation correspondence check",
         ref="6/C09"),
- "C14": dict(text="URI half full: C14_uri_roundtrip_toks (decode . encode = id on every well-formed type), C14_uri_injective, C14_decode_sound "
-        "(anything the decoder accepts re-encodes to its input) and C14_resolve (name resolution under distinct names) for every language, any arity "
-        "and nesting. Text half (printed form re-parsed, aliases) is so far covered by the correspondence oracle on the implementation only "
-        "(partial: the parse_type stack machine is not yet in the Lean model).",
-        technique="Lean 4 proof (generalised work-list invariant, mutual induction) + model/implementation correspondence check",
+ "C14": dict(text="Full on the model: URI half - C14_uri_roundtrip_toks (decode . encode = id on every well-formed type), C14_uri_injective, C14_decode_sound, "
+        "C14_resolve; text half - C14_text_roundtrip (parse_type's stack machine applied to the printed tokens of any printable concrete non-function type "
+        "returns the type, via the generalised invariant C14_text_invariant), C14_text_injective, C14_alias_plain / C14_alias_param (an alias in type text "
+        "denotes its definition), for every language, arity and nesting depth. Tie: uri / parse_type_uri / str(t) / parse_type / aliases of the implementation "
+        "against the model on generated languages; the printed string is tied to the token list by tokenizing it on both sides.",
+        technique="Lean 4 proof (generalised work-list and stack-machine invariants, mutual structural induction) + model/implementation correspondence check",
         ref="6/C14"),
+ "C13": dict(text="Structure full on the model (annotation-free renderings): C13_parse_spine (the stack machine started on any stack consumes the rendering of a "
+        "spine and leaves its denotation), C13_parse_render, C13_redundant_parens, C13_paren_prefix, C13_call_atoms, C13_render_tree / C13_call_eq_juxtaposition "
+        "(f x y = (f x) y = f(x, y) = ((f)(x))(y)), C13_inputs, C13_source(_fresh), C13_tokens (tokenizer on any layout), C13_comments, C13_trivia, C13_text(_trivia). "
+        "Partial: annotations `e : T`, the typed half (same types as programmatic construction) and Expr.match are covered by correspondence (typed builder model vs "
+        "implementation on every notation and on Python construction) and by the oracle, not by a theorem.",
+        technique="Lean 4 proof (stack-machine invariant generalised over the stack, induction over nested spines) + model/implementation correspondence check",
+        ref="6/C13"),
+ "C17": dict(text="Parsers full on the model: C17_parseType_no_internal / C17_parseExpr_no_internal (for every token list neither stack machine reaches an "
+        "assertion/index/value error site, for any total expression builder), C17_parseType_consumes, C17_parseExpr_fuel_irrelevant (termination: the model's fuel "
+        "never runs out, one token at least is consumed per step). Engine partial: instantiate/apply/unify/fix with constraints are tied by correspondence on "
+        "constraint-heavy schemas and checked by the oracle (exception class in the declared families, 5 s bound per case); the interpreter recursion limit is outside "
+        "the model (known finding D11).",
+        technique="Lean 4 proof (loop invariants on the parser stacks, suffix/fuel argument) + model/implementation correspondence check + declared-error oracle",
+        ref="6/C17"),
  "C20": dict(text="Full for the repaired Bag.add: over any decidable partial order C20_union_specific/general (kept = minimal/maximal elements), "
         "C20_union_perm, C20_union_nodup, C20_bag (reduced bag satisfied by an up-closed set iff every requirement is) and C20_bag_perm, for all "
         "insertion sequences of any length. Tie: TypeUnion/Bag of bag.py run on all permutations of generated sequences against the model; "
@@ -82,7 +97,7 @@ def main():
         json.dump(m, f, indent=1)
 
 
-HOOK_COMMITS: list = []
+HOOK_COMMITS: list = ["2255141"]
 
 if __name__ == "__main__":
     main()
